@@ -381,7 +381,9 @@ def pointwise(ctx, block):
 
 def p_levels(N):
     """{k/N, (k-1/2)/N, tiny, 1-tiny, 1} and the C04 levels."""
-    ps = {1e-12, 1 - 1e-12, 1.0, 0.05, 0.2, 1 / 3, 0.5, 0.75, 0.8}
+    ps = {1e-12, 1 - 1e-12, 1.0, 0.05, 0.2, 1 / 3, 0.5, 0.75, 0.8,
+          # neighbourhoods of the "special" levels: the value must move monotonically through them
+          0.25, 0.249, 0.251, 0.499, 0.501, 0.749, 0.751, 1 / 3 - 1e-3, 1 / 3 + 1e-3}
     for k in range(1, N + 1):
         ps.add(k / N)
         ps.add((k - 0.5) / N)
@@ -560,6 +562,13 @@ def run(ctx):
     for N in ([1, 2, 3, 4] if ctx.quick else [1, 2, 3, 4, 5]):
         ctx.run("pointwise", {"what": "topp", "N": N, "A": A, "params": p_levels(N), "scale": 1.0,
                               "dtype": "float64"})
+    long_blocks = []
+    for N, sym, via, dtype in ((9, 3, "functional", "float64"), (10, 3, "module", "float64"), (10, 2, "functional", "float32"),
+                               (11, 3 if ctx.thorough else 2, "module", "float64")):
+        long_blocks.append({"N": N, "A": A[:3] if sym == 3 else [A[0], A[2]], "params": [0.25, 0.3, 0.35, 0.5, 0.75],
+                            "dtype": dtype, "via": via})
+    for b in long_blocks:
+        ctx.run("es_long", b)
     for N in (1, 2, 3):
         for dtype in ("float64", "float32"):
             ctx.run("ambient_flag", {"N": N, "A": A, "scale": 1.0, "dtype": dtype})
@@ -628,6 +637,45 @@ def ambient_flag(ctx, block):
                           f"{name} on {x[:, j].tolist()} differs under torch.use_deterministic_algorithms(True)",
                           observed=got.reshape(-1)[:8].tolist() if got.shape != base.shape else got[..., j].tolist(),
                           expected=base[..., j].tolist() if got.shape == base.shape else list(base.shape), block=mini)
+
+
+@family
+def es_long(ctx, block):
+    """Expected shortfall of LONG samples (N = 9..11: p N a non-integer above 2): every sample over a
+    2-3 symbol dyadic alphabet (up to 3^11 columns in one call).  Reference in exact integer arithmetic,
+    vectorised over the columns only: sort the integer numerators, add the ceil(pN) smallest, divide once."""
+    dtype, via = block["dtype"], block["via"]
+    cols = S.columns(block)
+    N, M = cols.shape
+    x = S.realise(cols, 1.0, dtype)
+    srt = cols.sort(0).values
+    site = (S.SITE if via == "module" else S.FSITE)["es"]
+    for p in block["params"]:
+        ks, _ = R.tail_counts(p, N)
+        if via == "module":
+            got = S.evaluate("es", p, x, via="module")
+        else:
+            got = S.evaluate("es", p, x.t().contiguous(), via="functional", dim=-1)
+        ctx.tick(M, nontrivial=int((cols != cols[:1]).any(0).sum()))
+        if tuple(got.shape) != (M,) or got.dtype != x.dtype:
+            ctx.violation(site, "shape_or_dtype:long", f"shape {tuple(got.shape)} dtype {got.dtype}", block=block)
+            continue
+        v = got.to(torch.float64)
+        tol = S.tol_value("es", p, x)
+        ok = torch.zeros(M, dtype=torch.bool)
+        for k in ks:
+            ref = -(srt[:k].sum(0).to(torch.float64) / (S.DEN * k))       # integers / (8k): one rounding
+            ok |= (v - ref).abs() <= tol
+        ctx.outcome(("es_long", N, p, round(float(v.sum()), 6)))
+        bad = (~ok).nonzero().flatten()
+        if len(bad):
+            j = int(bad[0])
+            mini = {"N": N, "cols": [S.col_list(cols, j)], "params": [p], "dtype": dtype, "via": via}
+            k = ks[0]
+            ctx.violation(site, "value:long", f"es(p={p}) on {x[:, j].tolist()} (N={N}, ceil(pN)={ks}) is not minus the mean "
+                          f"of the {k} worst outcomes", observed=float(v[j]),
+                          expected=-float(srt[:k, j].sum()) / (S.DEN * k), block=mini)
+            ctx.viol_counts[(str(site), "value:long")] += len(bad) - 1
 
 
 @family
